@@ -148,6 +148,28 @@ func Guard(f func()) (panicked bool, msg string, where string) {
 	return
 }
 
+// firstFrameIsLibrary: is the frame that raised the panic (first frame after the runtime's panic frames) library or
+// dependency code rather than harness code?
+func firstFrameIsLibrary(stack string) bool {
+	lines := strings.Split(stack, "\n")
+	seenPanic := false
+	for _, l := range lines {
+		t := strings.TrimSpace(l)
+		if strings.HasPrefix(t, "panic(") {
+			seenPanic = true
+			continue
+		}
+		if !seenPanic || strings.HasPrefix(t, "/") || strings.HasPrefix(t, "runtime.") || t == "" {
+			continue
+		}
+		if strings.HasPrefix(t, "verifsim/") {
+			return false
+		}
+		return strings.Contains(t, "hashicorp/") || strings.Contains(t, "google.golang.org/protobuf")
+	}
+	return false
+}
+
 // panicSite extracts the first library frame of a stack for signatures.
 func panicSite(stack string) string {
 	lines := strings.Split(stack, "\n")
@@ -235,7 +257,18 @@ func Exec(t *testing.T, sp Spec, engine Engine) *Result {
 							return
 						}
 						if res.Harness == "" && res.Violation == nil {
-							res.Harness = fmt.Sprintf("panic in engine: %v\n%s", p, debug.Stack())
+							stack := string(debug.Stack())
+							if site := panicSite(stack); site != "unknown" && firstFrameIsLibrary(stack) {
+								// the library itself panicked in a call the engine made with well-formed arguments (on the
+								// unchanged tree this never happens): a violation of whatever the call was meant to deliver
+								sig := prop + "/library-panic/" + site
+								if known[sig] {
+									return
+								}
+								res.Violation = &Violation{Oracle: "no-panic", Signature: sig, Detail: fmt.Sprintf("library code panicked: %v (in %s)", p, site)}
+								return
+							}
+							res.Harness = fmt.Sprintf("panic in engine: %v\n%s", p, stack)
 						}
 					}
 				}()
